@@ -197,6 +197,11 @@ func Run(c *core.Ctx) int {
 					all = append(all, k)
 				}
 			}
+			// two .inc.js files of the package: their order in the output follows neither the
+			// listing order nor the creation order
+			files["aa.inc.js"] = "// first include\n$global.vpIncOrder = ($global.vpIncOrder || \"\") + \"a\";\n"
+			files["bb.inc.js"] = "// second include\n$global.vpIncOrder = ($global.vpIncOrder || \"\") + \"b\";\n"
+			all = append(all, "aa.inc.js", "bb.inc.js")
 			sort.Strings(all)
 			_ = names
 			hs := map[string][]string{}
